@@ -9,6 +9,7 @@ mod der;
 mod prefixlaws;
 mod reschain;
 mod rfc1982;
+mod urialg;
 
 fn main() {
     common::quiet_panics();
@@ -25,6 +26,8 @@ fn main() {
         ("replay", "reschain") => reschain::replay(rest),
         ("drive", "reschain") => reschain::drive(rest),
         ("replay", "prefixlaws") => prefixlaws::replay(rest),
+        ("replay", "urialg") => urialg::replay(rest),
+        ("drive", "urialg") => urialg::drive(rest),
         ("drive", "prefixlaws") => prefixlaws::drive(rest),
         (a, b) => {
             eprintln!("unknown command {a} {b}");
